@@ -15,9 +15,91 @@ def expectedIso9362 : BicPattern :=
 def expectedSwift : BicPattern :=
   { head := [⟨upperCls, 4, 4⟩, ⟨upperCls, 2, 2⟩, ⟨alnumCls, 2, 2⟩], tail := some [⟨alnumCls, 3, 3⟩] }
 
+/-! ### Patterns up to spelling
+
+  A fixed-count pattern is determined by the class it demands at each position: `[A-Z]{4}[A-Z]{2}` and
+  `[A-Z]{6}` are the same pattern.  The obligation on the live patterns is stated up to this
+  equivalence, so that re-spelling a pattern in the source does not break the tie. -/
+
+def allFixed (items : List Item) : Bool := items.all (fun it => it.lo == it.hi)
+
+/-- The class demanded at each position. -/
+def expandItems : List Item → List CClass
+  | [] => []
+  | it :: t => List.replicate it.lo it.cls ++ expandItems t
+
+/-- Position-by-position match of a prefix, then the continuation. -/
+def posMatch (U : Unicode) : List CClass → Str → (Str → Bool) → Bool
+  | [], s, k => k s
+  | c :: cs, x :: xs, k => c.test U x && posMatch U cs xs k
+  | _ :: _, [], _ => false
+
+theorem matchRep_replicate (U : Unicode) (c : CClass) (k : Str → Bool) :
+    ∀ (n : Nat) (s : Str), matchRep (c.test U) n n s k = posMatch U (List.replicate n c) s k
+  | 0, s => by simp [matchRep, posMatch]
+  | n + 1, [] => by simp [matchRep, posMatch, List.replicate_succ]
+  | n + 1, x :: t => by
+    simp only [matchRep, List.replicate_succ, posMatch, Nat.add_sub_cancel, Nat.zero_lt_succ,
+      decide_true, Bool.and_true]
+    rw [matchRep_replicate U c k n t]
+
+theorem posMatch_append (U : Unicode) (k : Str → Bool) :
+    ∀ (a b : List CClass) (s : Str),
+      posMatch U (a ++ b) s k = posMatch U a s (fun r => posMatch U b r k)
+  | [], b, s => by simp [posMatch]
+  | c :: a, b, [] => by simp [posMatch]
+  | c :: a, b, x :: t => by
+    simp only [List.cons_append, posMatch]
+    rw [posMatch_append U k a b t]
+
+theorem goTail_pos (U : Unicode) :
+    ∀ (items : List Item), allFixed items = true → ∀ s,
+      BicPattern.fullmatch.goTail U items s = posMatch U (expandItems items) s (fun r => r == [])
+  | [], _, s => by simp [BicPattern.fullmatch.goTail, expandItems, posMatch]
+  | it :: rest, h, s => by
+    simp only [allFixed, List.all_cons, Bool.and_eq_true, beq_iff_eq] at h
+    have ih := goTail_pos U rest (by simpa [allFixed] using h.2)
+    simp only [BicPattern.fullmatch.goTail, expandItems]
+    rw [← h.1, matchRep_replicate, posMatch_append]
+    congr 1
+    funext r
+    exact ih r
+
+theorem go_pos (U : Unicode) (tl : List Item) :
+    ∀ (items : List Item), allFixed items = true → ∀ s,
+      BicPattern.fullmatch.go U items tl s =
+        posMatch U (expandItems items) s
+          (fun r => r == [] || (tl != [] && BicPattern.fullmatch.goTail U tl r))
+  | [], _, s => by simp [BicPattern.fullmatch.go, expandItems, posMatch]
+  | it :: rest, h, s => by
+    simp only [allFixed, List.all_cons, Bool.and_eq_true, beq_iff_eq] at h
+    have ih := go_pos U tl rest (by simpa [allFixed] using h.2)
+    simp only [BicPattern.fullmatch.go, expandItems]
+    rw [← h.1, matchRep_replicate, posMatch_append]
+    congr 1
+    funext r
+    exact ih r
+
+/-- Two patterns that demand the same classes at the same positions (head and optional tail). -/
+def BicPattern.equivB (p q : BicPattern) : Bool :=
+  allFixed p.head && allFixed q.head && allFixed (p.tail.getD []) && allFixed (q.tail.getD []) &&
+  (expandItems p.head == expandItems q.head) &&
+  (expandItems (p.tail.getD []) == expandItems (q.tail.getD [])) &&
+  (((p.tail.getD []) != []) == ((q.tail.getD []) != []))
+
+theorem BicPattern.fullmatch_congr (U : Unicode) {p q : BicPattern} (h : p.equivB q = true) (s : Str) :
+    p.fullmatch U s = q.fullmatch U s := by
+  simp only [BicPattern.equivB, Bool.and_eq_true, beq_iff_eq] at h
+  obtain ⟨⟨⟨⟨⟨⟨h1, h2⟩, h3⟩, h4⟩, h5⟩, h6⟩, h7⟩ := h
+  unfold BicPattern.fullmatch
+  rw [go_pos U _ _ h1, go_pos U _ _ h2, h5]
+  congr 1
+  funext r
+  rw [goTail_pos U _ h3, goTail_pos U _ h4, h6, h7]
+
 structure BicCtx.WF (X : BicCtx) : Prop where
-  iso9362 : X.iso9362 = expectedIso9362
-  swift : X.swift = expectedSwift
+  iso9362 : X.iso9362.equivB expectedIso9362 = true
+  swift : X.swift.equivB expectedSwift = true
 
 theorem alnumCls_test (U : Unicode) (x : Nat) : alnumCls.test U x = isAlnumU x := by
   simp [alnumCls, CClass.test, isAlnumU, isAsciiDigit, isAsciiUpper]
@@ -74,9 +156,11 @@ theorem bic_validate_eq (X : BicCtx) (hX : X.WF) (c : Str) (strict : Bool) :
       else if X.iso.contains ((c.drop 4).take 2) = false then .err .invalidCountryCode
       else .ok true := by
   unfold BIC.validate
-  have hpat : (if strict then X.swift else X.iso9362) =
-      (if strict then expectedSwift else expectedIso9362) := by
-    rw [hX.iso9362, hX.swift]
+  have hpat : (if strict then X.swift else X.iso9362).fullmatch X.U c =
+      (if strict then expectedSwift else expectedIso9362).fullmatch X.U c := by
+    cases strict
+    · exact BicPattern.fullmatch_congr X.U hX.iso9362 c
+    · exact BicPattern.fullmatch_congr X.U hX.swift c
   rw [hpat]
   by_cases h8 : c.length = 8
   · obtain ⟨c0, c1, c2, c3, c4, c5, c6, c7, rfl⟩ := list_len8 h8
